@@ -154,19 +154,38 @@ package tlog
 //@   trigger ISTPROOF(A, o, m, lo, hi, n)
 //@   props C03
 
+//@ # a prefix [lo,n) that reaches beyond the split point of [lo,hi) splits at the same point
+//@ lemma mth_split(lo int, n int, w int)
+//@   requires 0 <= lo && w >= 2 && K(w) < n - lo && n - lo <= w
+//@   ensures MTH(lo, n) == NodeHash(MTH(lo, lo + K(w)), MTH(lo + K(w), n))
+//@   uses K_bounds K_same
+//@   hint K(n - lo)
+//@   trigger MTH(lo, n), K(w)
+//@   props C03
+
 //@ # soundness: if the implied new root is the true hash of [lo,hi), the implied old root is the true hash of [lo,n)
 //@ # and the proof is the RFC 6962 consistency proof
 //@ lemma treeproof_sound(A HashArr, o int, m int, lo int, hi int, n int, old Hash)
 //@   requires 0 <= lo && lo < n && n <= hi && m == TL(lo, hi, n) && RUNNEW(A, o, m, lo, hi, n, old) == MTH(lo, hi)
 //@   ensures ISTPROOF(A, o, m, lo, hi, n)
-//@   ensures RUNOLD(A, o, m, lo, hi, n, old) == MTH(lo, n)
+//@   ensures (n >= hi || hi <= lo + 1 || n <= lo + K(hi - lo)) ==> RUNOLD(A, o, m, lo, hi, n, old) == MTH(lo, n)
+//@   ensures !(n >= hi || hi <= lo + 1 || n <= lo + K(hi - lo)) ==> RUNOLD(A, o, m, lo, hi, n, old) == MTH(lo, n)
 //@   induction hi - lo
 //@   hint K(n - lo)
 //@   hint K(hi - lo)
 //@   hint MTH(lo, n)
 //@   hint MTH(lo, hi)
+//@   hint RUNNEW(A, o, m - 1, lo, lo + K(hi - lo), n, old)
+//@   hint RUNNEW(A, o, m - 1, lo + K(hi - lo), hi, n, old)
+//@   hint RUNOLD(A, o, m - 1, lo, lo + K(hi - lo), n, old)
+//@   hint RUNOLD(A, o, m - 1, lo + K(hi - lo), hi, n, old)
+//@   hint TL(lo, lo + K(hi - lo), n)
+//@   hint TL(lo + K(hi - lo), hi, n)
 //@   trigger RUNNEW(A, o, m, lo, hi, n, old)
-//@   uses K_bounds K_same TL_nonneg node_injective
+//@   uses K_bounds TL_nonneg node_injective mth_split
+//@   hint K(K(hi - lo))
+//@   hint K(lo + K(hi - lo) - lo)
+//@   hint K(hi - (lo + K(hi - lo)))
 //@   props C03
 
 //@ # completeness: the true consistency proof and the true old root imply the true roots
@@ -176,8 +195,14 @@ package tlog
 //@   ensures RUNOLD(A, o, m, lo, hi, n, old) == MTH(lo, n)
 //@   induction hi - lo
 //@   trigger ISTPROOF(A, o, m, lo, hi, n), RUNNEW(A, o, m, lo, hi, n, old)
+//@   trigger ISTPROOF(A, o, m, lo, hi, n), RUNOLD(A, o, m, lo, hi, n, old)
 //@   hint K(n - lo)
 //@   hint K(hi - lo)
+//@   hint MTH(lo, n)
+//@   hint MTH(lo, hi)
+//@   hint MTH(lo + K(hi - lo), n)
+//@   hint MTH(lo, lo + K(hi - lo))
+//@   hint MTH(lo + K(hi - lo), hi)
 //@   uses K_bounds K_same
 //@   props C03
 
